@@ -254,12 +254,35 @@ func RunVM(bm *bondmachine.Bondmachine, rules []string, T int) Trace {
 	if err := vm.Launch_processors(sbox); err != nil {
 		panic(err)
 	}
+	showDisasm := false
+	for _, r := range rules {
+		if r == "config:show_disasm" {
+			showDisasm = true
+		}
+	}
 	var tr Trace
 	for s := 0; s < T; s++ {
+		var want []string
+		if showDisasm {
+			want = ownDisasm(bm, vm)
+		}
 		rep, err := vm.Step(sc)
 		t := Tick{Report: rep, Top: topDigest(vm)}
 		if err != nil {
 			t.Err = err.Error()
+		}
+		if showDisasm && err == nil {
+			// the disassembly a processor reports is the disassembly of ITS word under ITS architecture, whatever
+			// else ran in the process before (checked against the architecture, not against another run)
+			var got []string
+			for _, l := range strings.Split(rep, "\n") {
+				if i := strings.Index(l, "Disasm: "); i >= 0 {
+					got = append(got, strings.TrimSpace(l[i+len("Disasm: "):]))
+				}
+			}
+			if strings.Join(got, " | ") != strings.Join(want, " | ") {
+				t.Err = fmt.Sprintf("REPORT-MISMATCH disassembly shown [%s], the processors' own architectures give [%s]", strings.Join(got, " | "), strings.Join(want, " | "))
+			}
 		}
 		for _, p := range vm.Processors {
 			t.Procs = append(t.Procs, ProcDigest(p))
@@ -267,6 +290,30 @@ func RunVM(bm *bondmachine.Bondmachine, rules []string, T int) Trace {
 		tr = append(tr, t)
 	}
 	return tr
+}
+
+// ownDisasm disassembles, for every processor in order, the word at its current pc with the processor's own
+// architecture (nothing for a pc beyond the program).
+func ownDisasm(bm *bondmachine.Bondmachine, vm *bondmachine.VM) []string {
+	var out []string
+	for i, p := range vm.Processors {
+		m := bm.Domains[bm.Processors[i]]
+		if int(p.Pc) >= len(m.Program.Slocs) {
+			continue
+		}
+		w := m.Program.Slocs[p.Pc]
+		id, err := m.Conproc.Decode_opcode(w)
+		if err != nil {
+			continue
+		}
+		op := m.Arch.Conproc.Op[id]
+		d, err := op.Disassembler(&m.Arch, w[m.Arch.Opcodes_bits():])
+		if err != nil {
+			continue
+		}
+		out = append(out, strings.TrimSpace(op.Op_get_name()+" "+d))
+	}
+	return out
 }
 
 // SharedDelays is ONE per-opcode delay table handed to every simulation of a scenario that asks for
@@ -350,6 +397,11 @@ const (
 	progA = "inc r0\nadd r1 r0\nj 0\n"
 	progB = "rset r0 3\ninc r0\nr2o r0 o0\nj 1\n"
 	progC = "inc r1\nr2o r1 o0\nj 0\n"
+	// progD / progE: different opcode sets of the same size ({inc,j,r2o} / {dec,j,r2o}), so the two architectures
+	// have the same word width and the SAME bit strings mean different instructions (opcode numbers are positions
+	// in the name-sorted list)
+	progD = "inc r0\nr2o r0 o0\nj 0\n"
+	progE = "dec r0\nr2o r0 o0\nj 0\n"
 )
 
 func pipeProg(op string) string {
@@ -377,6 +429,8 @@ func All() []Scenario {
 			Note: "2 unconnected processors with the show_pc rule: VM.Step returns per-processor report text"},
 		{Name: "indep2-showdisasm", Sims: one(Indep(progB, progC), "config:show_pc", "config:show_disasm", "config:show_proc_regs_pre", "config:show_io_post"), Isolation: true, Ticks: [2]int{3, 4}, Bound: [2]int{2, 4},
 			Note: "2 unconnected processors with pc/disasm/regs/io report rules"},
+		{Name: "hetero2-showdisasm", Sims: one(Indep(progD, progE), "config:show_pc", "config:show_disasm"), Isolation: true, Ticks: [2]int{3, 4}, Bound: [2]int{2, 3},
+			Note: "2 unconnected processors of DIFFERENT architectures with equal word width executing identical bit strings, disassembly shown"},
 		{Name: "pipe2-addp", Sims: one(Indep(pipeProgShort("addp"), pipeProgShort("addp"))), Isolation: true, OpYield: true, Ticks: [2]int{4, 5}, Bound: [2]int{2, 3},
 			Note: "2 unconnected processors both executing addp (process-wide Addp singleton); opcode executions are scheduling points"},
 		{Name: "pipe2-multp", Sims: one(Indep(pipeProg("multp"), pipeProg("multp"))), Isolation: true, OpYield: true, Ticks: [2]int{4, 5}, Bound: [2]int{2, 3},
@@ -393,6 +447,8 @@ func All() []Scenario {
 			Note: "two caller goroutines simulate the SAME *Bondmachine object concurrently"},
 		{Name: "twovm-diff", Sims: []Sim{{Def: Indep(progA), Rules: []string{"config:show_pc"}}, {Def: Indep(progC)}}, Ticks: [2]int{2, 3}, Bound: [2]int{2, 2},
 			Note: "two caller goroutines simulate different machines concurrently"},
+		{Name: "twovm-hetero-showdisasm", Sims: []Sim{{Def: Indep(progD), Rules: []string{"config:show_disasm"}}, {Def: Indep(progE), Rules: []string{"config:show_disasm"}}}, Ticks: [2]int{2, 3}, Bound: [2]int{2, 2},
+			Note: "two concurrent simulations of machines of different architectures whose ROM words are the same bit strings, disassembly shown"},
 		{Name: "twovm-pipe", Sims: []Sim{{Def: Indep(pipeProgShort("addp"))}, {Def: Indep(pipeProgShort("addp"))}}, Ticks: [2]int{2, 3}, Bound: [2]int{2, 3},
 			Note: "two concurrent simulations of one-processor machines that both use addp"},
 		{Name: "twosps-same", Sims: []Sim{{Def: InOut(spsProg), SPS: true, Input: []string{"5"}}, {Def: InOut(spsProg), Share: 1, SPS: true, Input: []string{"9"}}}, Bound: [2]int{1, 3},
